@@ -23,6 +23,8 @@ c26 ekmseq <version> <suite> <ms> <cr> <sr> <label>:<ctx|nil>:<len>,…    → r
 c26 ekm13seq <suite13> <master> <msgs> <label>:<ctx|nil>:<len>,…         → same for the TLS 1.3 exporter closure
 c26 finseq <version> <suite> <ms> <msg>,<msg>…                           → sum,client,server before the first / after every Write (+ once more)
 c26 keyssuite <version> <suite id> <ms> <cr> <sr>                        → 6 hex | panic   (establishKeys: the suite's own lengths, T1 table row)
+c26 suitebyid <id>                                                       → id,mac,key,iv,flags | nil   (cipherSuiteByID)
+c26 mutual <id,…|-> <want>                                               → id,mac,key,iv,flags | nil   (mutualCipherSuite)
 c26 hs13 <suite13> <early|nil> <shared> <msgs>                           → ok cHs,sHs,master | panic  (establishHandshakeKeys)
 c26 psk13 <suite13> <resumption secret> <nonce> <truncated hello>        → ok psk,binder | panic  (loadSession / checkForResumption)
 c26 app13 <suite13> <master> <msgsSF> <msgsCF>                           → ok cAp,sAp,res | panic
@@ -48,7 +50,8 @@ def optHex (s : String) : Option (Option Bytes) :=
 
 /-- TLS ≤ 1.2 suite id → does key derivation use SHA-384 (`flags&suiteSHA384`) -/
 def flag (s : String) : Option Bool :=
-  s.toNat?.map (fun id => (ZV.Generated.C26.suiteRows.find? (fun r => r.1 == id)).elim (rfcSHA384Suites.contains id) (·.2.2.2.2))
+  s.toNat?.map (fun id => (cipherSuiteByID ZV.Generated.C26.tableImplemented id).elim (rfcSHA384Suites.contains id)
+    (rowSHA384 ZV.Generated.C26.suiteSHA384Bit))
 
 /-- TLS 1.3 suite id → (hash, key length) -/
 def suite13 (s : String) : Option (HashAlg × Nat) :=
@@ -117,10 +120,22 @@ def sched13 (H : Hash13) : List String → Bytes → Option (Bytes × Bytes) →
 def suiteRow (s : String) : Option (Nat × Nat × Nat × Nat × Bool) :=
   match s.toNat? with
   | none => none
-  | some id => ZV.Generated.C26.suiteRows.find? (fun r => r.1 == id)
+  | some id => (cipherSuiteByID ZV.Generated.C26.tableImplemented id).map (rowKeyShape ZV.Generated.C26.suiteSHA384Bit)
+
+def showRow : Option SuiteRow → String
+  | none => "nil"
+  | some r => s!"{r.1},{r.2.1},{r.2.2.1},{r.2.2.2.1},{r.2.2.2.2}"
 
 def handle (args : List String) : String :=
   match args with
+  | ["suitebyid", id] =>
+    match id.toNat? with
+    | some id => showRow (cipherSuiteByID ZV.Generated.C26.tableImplemented id)
+    | none => "bad-op"
+  | ["mutual", have_, want] =>
+    match (if have_ == "-" then some [] else (have_.splitOn ",").mapM String.toNat?), want.toNat? with
+    | some h, some w => showRow (mutualCipherSuite ZV.Generated.C26.tableImplemented h w)
+    | _, _ => "bad-op"
   | ["keyssuite", v, sid, ms, cr, sr] =>
     match v.toNat?, suiteRow sid, ofHex ms, ofHex cr, ofHex sr with
     | some v, some row, some ms, some cr, some sr =>
